@@ -88,6 +88,9 @@ pub enum Step {
     /// other framing makes the server terminate the session
     Rfc6242Server { server_has_11: bool },
     Close(CloseKind),
+    /// the client abandons (drops) the reply future of request k now, at whatever suspension point
+    /// it is in (C18 over the real transports)
+    DropRequest(usize),
 }
 
 #[derive(Clone, Debug)]
@@ -125,6 +128,10 @@ pub struct Outcome {
     pub virt_ns: u64,
     pub client_messages: Vec<String>,
     pub harness_error: Option<String>,
+    /// per request: handle of the task awaiting its reply future
+    pub abort: Vec<Option<Arc<tokio::task::AbortHandle>>>,
+    /// requests whose reply future was dropped by a Step::DropRequest while still pending
+    pub dropped: Vec<usize>,
 }
 
 pub fn hello_msg(caps: &[&str]) -> Vec<u8> {
@@ -409,6 +416,16 @@ async fn play(steps: Vec<Step>, mut io: PeerIo, ps: Ps, out: Arc<Mutex<Outcome>>
                 tokio::time::sleep(Duration::from_millis(1)).await;
             }
             Step::SleepMs(ms) => tokio::time::sleep(Duration::from_millis(ms)).await,
+            Step::DropRequest(k) => {
+                let mut o = out.lock().unwrap();
+                let pending = matches!(o.results.get(k), Some(Res::Hang));
+                if let Some(Some(h)) = o.abort.get(k) {
+                    if pending && !h.is_finished() {
+                        h.abort();
+                        o.dropped.push(k);
+                    }
+                }
+            }
             Step::Chunk(data) => {
                 match &mut io {
                     PeerIo::Tls(w, _) => {
@@ -539,12 +556,22 @@ where
             }
         };
         match tokio::time::timeout(WAIT, s.rpc::<Get, _>(|b| b.finish())).await {
-            Ok(Ok(f)) => tasks.push(tokio::spawn(async move {
-                let r = res_of(tokio::time::timeout(WAIT, f).await, |v| v.chars().take(60).collect());
-                set(r);
-            })),
-            Ok(Err(e)) => set(Res::Err(format!("send: {e:?}").chars().take(200).collect())),
-            Err(_) => set(Res::Hang),
+            Ok(Ok(f)) => {
+                let t = tokio::spawn(async move {
+                    let r = res_of(tokio::time::timeout(WAIT, f).await, |v| v.chars().take(60).collect());
+                    set(r);
+                });
+                out.lock().unwrap().abort.push(Some(Arc::new(t.abort_handle())));
+                tasks.push(t);
+            }
+            Ok(Err(e)) => {
+                out.lock().unwrap().abort.push(None);
+                set(Res::Err(format!("send: {e:?}").chars().take(200).collect()));
+            }
+            Err(_) => {
+                out.lock().unwrap().abort.push(None);
+                set(Res::Hang);
+            }
         }
     }
     for t in tasks {
